@@ -14,7 +14,7 @@ import errno
 import sys
 from types import SimpleNamespace
 
-from engine.harness_api import Ob, setup, pick
+from engine.harness_api import Ob, setup, pick, ns
 setup(shim=False)
 
 import gunicorn.workers.base as WB  # noqa: E402
@@ -171,9 +171,9 @@ def sync_loop(lim: int, k: int) -> bool:
             w.alive = False                # nothing more will come: let the loop end (only reached when k < lim)
         return ([], [], [])
     saved = S.select, S.os, S.util
-    S.select = SimpleNamespace(select=select)
-    S.os = SimpleNamespace(getppid=lambda: 1, read=lambda fd, n: b"")
-    S.util = SimpleNamespace(close_on_exec=lambda fd: None, close=saved[2].close, reraise=saved[2].reraise)
+    S.select = ns("S.select", select=select)
+    S.os = ns("S.os", getppid=lambda: 1, read=lambda fd, n: b"")
+    S.util = ns("S.util", close_on_exec=lambda fd: None, close=saved[2].close, reraise=saved[2].reraise)
     try:
         w.run_for_one(w.timeout)
     finally:
